@@ -93,7 +93,7 @@ package httpgrpc
 //@ func readProtoMessage
 //@   alloc_bound[C07,C11] maxMessageSize
 //@   ensures[C07,C11] bad_size_rejected: (sz < 0 || sz > maxMessageSize) ==> result != nil && rd_pos(in) == old(rd_pos(in))
-//@   ensures[C07] bad_size_reads_nothing: (sz < 0 || sz > maxMessageSize) ==> !called("io.ReadAtLeast") && !called("encoding.Codec.Unmarshal")
+//@   ensures[C07] bad_size_reads_nothing: (sz < 0 || sz > maxMessageSize) ==> !called("io.read_exactly") && !called("encoding.Codec.Unmarshal")
 //@   ensures[C07,C01] success_consumes_exactly_the_frame: result == nil ==> 0 <= sz && sz <= maxMessageSize && rd_pos(in) == old(rd_pos(in)) + sz
 //@   ensures[C07,C01] success_decodes_exactly_once: result == nil ==> calls("encoding.Codec.Unmarshal") == 1
 //@   ensures[C07] short_payload_is_error: 0 <= sz && sz <= maxMessageSize && old(rd_avail(in)) < sz ==> result != nil
@@ -101,7 +101,7 @@ package httpgrpc
 //@   ensures[C07] short_payload_error_kind: 0 < sz && sz <= maxMessageSize && old(rd_avail(in)) < sz ==> (old(rd_avail(in)) <= 0 ==> result == rd_end_err(in)) && (old(rd_avail(in)) > 0 ==> result == short_read_err(in))
 //@   assert_call[C07,C01] encoding.Codec.Unmarshal : exact_payload: len(arg1) == sz && (forall j int :: 0 <= j && j < sz ==> arg1[j] == rd_at(in, old(rd_pos(in)) + j))
 //@   assert_call[C07,C01] encoding.Codec.Unmarshal : into_destination: arg0 == codec && arg2 == m
-//@   assert_call[C07] io.ReadAtLeast : reads_from_in: arg0 == in
+//@   assert_call[C07] io.read_exactly : reads_from_in: arg0 == in
 //@   modifies rd_pos(in), external
 
 // ---- serverStream.RecvMsg: C07 (truncation, bad sizes), C08 (single request), C01 ----
